@@ -118,6 +118,9 @@ fn keys_for<V: Fv>(seed: u64, nheavy: usize, nlight: usize, heavy: &mut Shards, 
     for (i, tag) in crate::corpus::fg_window(V::N).iter().take(ncorpus) {
         seeds.push((crate::corpus::corpus_seed(*i), tag));
     }
+    for (i, tag) in crate::corpus::long_stream(V::N).iter().take(if nheavy > 8 { 3 } else { 1 }) {
+        seeds.push((crate::corpus::corpus_seed(*i), tag));
+    }
     let nheavy = nheavy.max(seeds.len() + 1);
     while seeds.len() < nheavy {
         seeds.push((rng.gen(), "random"));
